@@ -71,6 +71,8 @@ def routes_for(g):
         for m in U.MPS_ONLY:
             r += [dict(entry="gate", mode=m)] * 2
         r.append(dict(entry="gate_split", mode="split"))
+        r.append(dict(entry="swap_sites", mode="swap"))
+        r.append(dict(entry="swap_sites", mode="swap", variant="swap_site_to"))
         r.append(dict(entry="gate_with_auto_swap", mode="swap"))
         if g.cls == "mps":
             r.append(dict(entry="gate_with_auto_swap", mode="swap", variant="info"))
@@ -173,7 +175,7 @@ def quantise(v):
 
 # --------------------------------------------------------------------------- one trace
 class Trace:
-    def __init__(self, geom, tid, seed, dtype="complex128", exact=True, with_gauges=False, source="walk"):
+    def __init__(self, geom, tid, seed, dtype="complex128", exact=True, with_gauges=False, source="walk", graded=0):
         self.g = geom
         self.tid = tid
         self.rng = random.Random(seed)
@@ -186,12 +188,22 @@ class Trace:
         self.recs = []
         self.seq = 0
         self.scaled = False
+        self.struct_now = True      # last observed: one tensor per site (the class's own structure)
         self.dead = False
         self.dropped = 0
         self.eps = 3e-4 if self.single else 1e-9
         self.ftol = 3e-3 if self.single else 1e-8      # relative tolerance of the float (relational) comparisons
         self.cap = 1e3 if self.single else 1e7
-        if exact:
+        self.locs = None
+        # graded traces: rounding errors are set by the dominant branch (~1e-16 * GRADE * conditioning) also after
+        # that branch has been projected out, so the snap tolerance keeps an absolute floor (the data are integers)
+        self.tol_floor = 1e-3 if graded else 0.0
+        if graded:
+            # K * product state + entangled state, exact integers: small but non-zero Schmidt coefficients
+            self.tn, self.locs = U.build_graded(geom, self.nprng, graded, dtype=dtype)
+            self.cap = 2.5e8
+            self.eps = 1e-10
+        elif exact:
             small = self.single or geom.densedim() > 100
             self.tn = U.build(geom, self.nprng, bond=2, dtype=dtype, re=1 if small else 2, im=1)
         else:
@@ -261,6 +273,17 @@ class Trace:
         if self.maxabs * growth(G, a["which"]) > cap:
             self.dropped += 1
             return False
+        if simple and self.cur is not None:
+            # Input restriction (not a verdict): simple update stores the new singular values as bond gauges, inverts
+            # them and (renorm) normalises them, which is undefined for the zero state.  A gate that annihilates the
+            # current state (rank deficient integer gates do that now and then) is therefore not given to gate_simple:
+            # quimb returns NaN (zero gauges inverted) or, with renorm=True, rounding noise scaled to norm one.
+            # The numpy transcription of the reference is used here only to choose inputs.
+            r0 = U.ref_apply(G, self.g.dims, list(a["pos"]), self.cur, a["op"], a["which"])
+            big = float(np.max(np.abs(self.cur), initial=0.0)) * growth(G, a["which"])
+            if float(np.max(np.abs(r0), initial=0.0)) <= 1e-6 * max(big, 1e-300):
+                self.annihilated = getattr(self, "annihilated", 0) + 1
+                return False
         if simple and self.gauges is None:
             self.gauges = {}
         if not simple:
@@ -286,7 +309,7 @@ class Trace:
         except Exception as ex:  # noqa  an observation: the table decides whether a rejection is allowed
             rec["exc"] = type(ex).__name__
             rec["excmsg"] = str(ex)[:200]
-        tol_abs = self.eps * (1.0 + self.maxabs * growth(G, a["which"]))
+        tol_abs = max(self.eps * (1.0 + self.maxabs * growth(G, a["which"])), self.tol_floor)
         if rec["exc"] == "":
             o = self.observe(out)
             rec.update(outer=o["outer"], sitetags=o["sitetags"], struct=o["struct"])
@@ -309,7 +332,7 @@ class Trace:
                     self.dead = True
                 if (not inplace) and (out is not tn0) and not self.scaled:
                     r0 = self.observe(tn0)
-                    sr = snap_vec(r0["v"], self.eps * (1 + self.maxabs)) if r0["v"] is not None else None
+                    sr = snap_vec(r0["v"], max(self.eps * (1 + self.maxabs), self.tol_floor)) if r0["v"] is not None else None
                     rec["recv_checked"] = True
                     rec["recv"] = sr or []
             else:
@@ -328,6 +351,7 @@ class Trace:
                     rec["recv_checked"] = True
                     rec["recvqd"] = qdiff(r0["v"], self.cur, self.ftol * 1e-2) if r0["v"] is not None else 999990
             self.tn = out
+            self.struct_now = bool(o["struct"])
             if v is not None:
                 self.cur = np.asarray(v).reshape(-1)
                 if not self.scaled:
@@ -339,7 +363,7 @@ class Trace:
             o = self.observe(tn0)
             rec.update(outer=o["outer"], sitetags=o["sitetags"], struct=o["struct"])
             if self.exact and not self.scaled:
-                sr = snap_vec(o["v"], self.eps * (1 + self.maxabs)) if o["v"] is not None else None
+                sr = snap_vec(o["v"], max(self.eps * (1 + self.maxabs), self.tol_floor)) if o["v"] is not None else None
                 rec["recv_checked"] = True
                 rec["recv"] = sr or []
             elif not self.exact:
@@ -389,19 +413,36 @@ def decorate(rng, g, a):
     return a
 
 
-def random_action(rng, nprng, tr, routes, maxk=3, wild=0.12):
+STRUCTURED = ("gate_split", "gate_with_auto_swap", "gate_sandwich_with_auto_swap", "swap_sites", "gate_simple",
+              "gate_nonlocal", "gate_with_submpo", "gate_with_mpo")
+
+
+def needs_structure(e, m):
+    """routes written for one tensor per site (they canonicalise / compress the chain or gauge a pair of sites)"""
+    return (e in STRUCTURED and m != "lazy") or (e == "gate" and m in U.MPS_ONLY)
+
+
+def random_action(rng, nprng, tr, routes, maxk=3, wild=0.12, structured_only_on_struct=False):
     """a random gate through a random route; mostly routes the table accepts for the arity, sometimes not"""
     g = tr.g
     for _ in range(30):
         r = dict(rng.choice(routes))
         e, m = r["entry"], r["mode"]
+        if needs_structure(e, m) and not getattr(tr, "struct_now", True):
+            # After lazy gates / merged sites the chain routes either raise or contract and re-split everything
+            # (the table says "maybe"); with cutoff 0 that leaves bonds of size 50-200 and a second such call costs
+            # minutes.  Long walks do not offer them any more; the short exact walks offer them only while the
+            # network is still small.
+            tn = getattr(tr, "tn", None)
+            if structured_only_on_struct or tn is None or tn.num_tensors > g.n + 3 or max(t.size for t in tn.tensors) > 2000:
+                continue
         k = rng.choice([1, 2, 2, 2, 3]) if maxk >= 3 else rng.choice([1, 2, 2])
         if e == "Tensor.gate":
             k = 1
         k = min(k, g.n, 2 if g.kind == "op" and g.D > 8 else 3)
         if rng.random() > wild:
             # steer to arities the route is made for
-            if e in ("gate_split", "gate_with_auto_swap", "gate_sandwich_with_auto_swap") or m in ("swap+split", "split-gate", "swap-split-gate"):
+            if e in ("gate_split", "gate_with_auto_swap", "gate_sandwich_with_auto_swap", "swap_sites") or m in ("swap+split", "split-gate", "swap-split-gate"):
                 k = min(2, g.n)
             if m in ("split", "reduce-split") and e != "gate_sandwich_with_auto_swap" and e != "gate_split":
                 k = min(k, 2)
@@ -413,6 +454,19 @@ def random_action(rng, nprng, tr, routes, maxk=3, wild=0.12):
             pos = [a_, b_] if rng.random() < 0.5 else [b_, a_]
         which = rng.choice(whiches_for(g, e))
         op = rng.choice(ops_for(e, which))
+        if e == "swap_sites":
+            # two sites of equal size; the "gate" is the SWAP matrix
+            pairs = [(x, y) for x in range(g.n) for y in range(g.n) if x != y and g.dims[x] == g.dims[y]]
+            if not pairs:
+                continue
+            pos = list(rng.choice(pairs))
+            if r.get("variant") == "swap_site_to":
+                x = rng.randrange(g.n - 1)
+                if g.dims[x] != g.dims[x + 1]:
+                    continue
+                pos = [x, x + 1] if rng.random() < 0.5 else [x + 1, x]
+            a = dict(r, pos=pos, which="site", op="N", G=U.swap_matrix(g.dims[pos[0]]))
+            return decorate(rng, g, a)
         if e == "gate" and m in ("nonlocal", "auto-mps", "swap+split") and rng.random() < 0.7:
             op = rng.choice("NT")
         gd = [g.dims[p] for p in pos]
@@ -499,6 +553,83 @@ def targeted_traces(rng, tid0, rounds):
                 if tr.step(a):
                     n += 1
             out.append(tr)
+    return out
+
+
+# --------------------------------------------------------------------------- graded Schmidt spectra, exact regime
+GRADE = 4 * 10 ** 6
+GRADED_GEOMS = [U.Geom("mps4g", "mps", [2, 3, 2, 2]), U.Geom("mps5g", "mps", [2, 2, 2, 2, 2]), U.Geom("mps4h", "mps", [3, 2, 2, 3]),
+                U.Geom("mps5h", "mps", [2, 3, 2, 2, 3]), U.Geom("mpo3g", "mpo", [2, 2, 2]), U.Geom("mpo4g", "mpo", [2, 2, 2, 2])]
+
+
+def graded_routes(g):
+    if g.kind == "op":
+        return ([dict(entry="gate_sandwich_with_auto_swap", mode=m) for m in ("split", "reduce-split")] * 2
+                + [dict(entry=e, mode=m) for e in ("gate", "gate_sandwich", "gate_upper", "gate_inds") for m in ("split", "reduce-split", "True", "False")])
+    r = [dict(entry="gate", mode=m) for m in ("swap+split", "auto-mps", "nonlocal")] * 3
+    r += [dict(entry="gate_with_auto_swap", mode="swap"), dict(entry="gate_with_auto_swap", mode="swap", variant="info")] * 2
+    r += [dict(entry="swap_sites", mode="swap"), dict(entry="swap_sites", mode="swap", variant="swap_site_to")]
+    r += [dict(entry=e, mode=m) for e in ("gate_nonlocal", "gate_with_submpo", "gate_with_mpo") for m in ("direct", "dm", "zipup")]
+    r += [dict(entry="gate", mode=m) for m in ("split", "reduce-split", "True", "split-gate")] + [dict(entry="gate_split", mode="split")]
+    return r
+
+
+def graded_traces(rng, tid0, n):
+    """The exact regime on states that carry small but non-zero Schmidt coefficients:  GRADE * product state +
+    entangled state  with integer data (squared relative Schmidt weight ~ 1e-11: a default cutoff would discard it,
+    cutoff=0 must not), every call with cutoff=0.0, mostly on distant sites, with generic gates and with the
+    projector n.1 - |a><a| that removes the dominant branch (the answer then lives in the small branch alone)."""
+    out = []
+    for k in range(n):
+        g = GRADED_GEOMS[k % len(GRADED_GEOMS)]
+        tr = Trace(g, tid0 + k, rng.randrange(1 << 30), dtype="complex128" if k % 3 else "float64", exact=True,
+                   source="graded", graded=GRADE)
+        routes = graded_routes(g)
+        steps = 0
+        for _ in range(10):
+            if steps >= 3:
+                break
+            r = dict(tr.rng.choice(routes))
+            e, m = r["entry"], r["mode"]
+            kk = 2
+            if e in ("gate_nonlocal", "gate_with_submpo", "gate_with_mpo") or m in ("nonlocal", "auto-mps", "True", "False"):
+                kk = tr.rng.choice([2, 2, 3]) if g.kind == "vec" else 2
+            if e == "swap_sites":
+                a = random_action(tr.rng, tr.nprng, tr, [r], wild=0.0)
+                if a is None:
+                    continue
+            else:
+                far = [(x, y) for x in range(g.n) for y in range(g.n) if abs(x - y) >= 2]
+                if e == "gate_split" or (m in ("split", "reduce-split") and e != "gate_sandwich_with_auto_swap"):
+                    x = tr.rng.randrange(g.n - 1)
+                    pos = [x, x + 1] if tr.rng.random() < 0.5 else [x + 1, x]
+                elif kk == 2 and tr.rng.random() < 0.8:
+                    pos = list(tr.rng.choice(far))
+                else:
+                    pos = tr.rng.sample(range(g.n), kk)
+                which = "site" if g.kind == "vec" else ("upper" if e == "gate_upper" else ("sandwich" if e != "gate_inds" else tr.rng.choice(["upper", "sandwich"])))
+                op = tr.rng.choice(ops_for(e, which))
+                if e == "gate" and m in ("swap+split", "auto-mps") and len(pos) == 2:
+                    op = tr.rng.choice("NT")
+                gd = [g.dims[p] for p in pos]
+                if steps == 0 or tr.rng.random() < 0.5:
+                    P = U.kill_gate(g, tr.locs, pos)
+                    if tr.real:
+                        P = P.real.astype(complex)
+                    G = P.T if op == "T" else P         # the operator that is applied (G^op) is the projector
+                    if tr.rng.random() < 0.5:
+                        G = G * tr.rng.choice([1, -1] if tr.real else [1, -1, 1j])
+                else:
+                    G = rand_gate(tr.rng, tr.nprng, gd, min(tr.budget(which), 12.0), real=tr.real)
+                    if G is None:
+                        continue
+                a = dict(r, pos=pos, which=which, op=op, G=G)
+                a = decorate(tr.rng, g, a)
+            a["cutoff"] = 0.0                        # the exact regime, on every call
+            a.pop("fill", None)
+            if tr.step(a):
+                steps += 1
+        out.append(tr)
     return out
 
 
@@ -611,13 +742,18 @@ def run(ctx):
             L = rng.randint(4, 10)
             while n < L and tries < 3 * L:
                 tries += 1
-                a = random_action(tr.rng, tr.nprng, tr, routes, wild=0.05)
+                a = random_action(tr.rng, tr.nprng, tr, routes, wild=0.05, structured_only_on_struct=True)
                 if a is None:
                     break
                 if tr.tn.num_tensors > 40:
                     break
                 if tr.step(a):
                     n += 1
+            recs += tr.recs
+            ntr += 1
+
+        # 4a. graded Schmidt spectra in the exact regime (cutoff = 0 on every call)
+        for tr in graded_traces(rng, ntr, 48 if quick else 600):
             recs += tr.recs
             ntr += 1
 
@@ -685,6 +821,8 @@ def run(ctx):
         "rejections (exceptions) are judged against the dispatch table: 'yes' must return, anything that returns must satisfy the property",
         "gate_simple: the state is the network with the bond gauges multiplied in; renorm=True is compared up to a positive scalar (quantised to 1e-4)",
         "gate_upper/lower/sandwich_with_op_lazy are given an operator covering every site (documented: matching structure)",
+        "graded traces: 4e6 * product state + entangled state with integer data (squared relative Schmidt weight ~1e-11), cutoff=0.0 on every call; snap tolerance 1e-10 relative to the magnitude bound with an absolute floor of 1e-3 (the small branch has integer amplitudes)",
+        "gate_simple is not given a gate that annihilates the current state (G.psi = 0): bond gauges of the zero state cannot be inverted or renormalised (quimb then returns NaN, or noise of norm one with renorm=True); every other entry point is judged on such inputs (the zero vector must come back)",
         "dtype float32/complex64 traces stop when the magnitude bound exceeds 1e3 (snap tolerance 3e-4 relative to the bound)",
     ]
     for f in fails:
